@@ -192,6 +192,12 @@ def eff1(units, R):
                 cn = callee_name(c)
                 if cn is None:
                     f = indirect_field(c)
+                    tg = c.get('targets')
+                    if tg and all(t in internal for t in tg):
+                        R.ob('EFF1', fn, c, 'indirect call %s' % expr_str(c['fn']), True,
+                             'dispatch through a constant table whose entries are the library functions %s' % ', '.join(tg),
+                             key='indirect:%s' % expr_str(c['fn']))
+                        continue
                     ok = f in hook_fields and uname == 'cJSON.c'
                     R.ob('EFF1', fn, c, 'indirect call %s' % expr_str(c['fn']), ok,
                          'through hooks field %s' % f if ok else 'indirect call not through the hooks table',
@@ -435,6 +441,10 @@ def eff2(units, R):
         for c in fn.calls():
             if callee_name(c) is None:
                 nu += 1
+                if c.get('targets'):
+                    R.ob('EFF2', fn, c, 'indirect call in Utils: %s' % expr_str(c['fn']), True,
+                         'reaches only %s (constant table of library functions)' % ', '.join(c['targets']), key='utils-indirect:' + expr_str(c['fn']))
+                    continue
                 R.ob('EFF2', fn, c, 'indirect call in Utils: %s' % expr_str(c['fn']), False,
                      'Utils must allocate through cJSON_malloc/cJSON_free', key='utils-indirect:' + expr_str(c['fn']))
     R.floor('EFF2', 'hook call sites', ncalls, 12)
